@@ -176,6 +176,13 @@ PROPS = {
              rewrite=[{"files": ["proxy/tcp/server.go"], "opts": ["-imports", "-go", "-chan"]}, {"files": ["proxy/tcp/tcp_proxy.go", "proxy/tcp/sni_proxy.go", "proxy/tcp/tcp_dynamic_proxy.go"], "opts": ["-go", "-chan", "-sel", "net.DialTimeout=vhook.DialTimeout"]}]),
         unit("c18-servers", "proxy", PROXY_COMMON + ["proxy/c18_test.go"], "^TestVerifC18"),
     ], layers={"quick": ["c18-core", "c18-servers"], "thorough": ["c18-core", "c18-servers"]}),
+    "C16": dict(level="model_checking", engine="xstate",
+        technique="bounded-exhaustive call matrix through the real grpc stack with fabio's options + explicit enumeration of table/pool histories with the pool's clean-up timer owned by the harness",
+        level_text="(calls) the product call kind x request/reply message sequences (<=3 payloads of empty/1B/70kB) x metadata shapes (custom, binary, dsthost matching/not/twice) x backend outcomes x headers/trailers is executed through grpc.Server built from main.newGrpcProxy against instrumented TestService backends and compared for identity; no-route gives NotFound without contacting a backend. (histories) every history up to depth 3 (thorough 4) of {call A, call B, remove/add B, clean-up pass, restart B}: reuse of one connection per backend, drop after leaving the table, success after re-adding.",
+        level_note="grpc-go's own goroutines are not under a scheduler: the property does not quantify over schedules. Asynchronous effects (connection closed at the backend) are awaited with a 10 s guard. TLS (grpcs) backends are not exercised.",
+        units=[
+        unit("c16", ".", MAIN_COMMON + ["main/c16_test.go"], "^TestVerifC16", engines=["vhook"], rewrite=[{"files": ["proxy/grpc_handler.go"], "opts": ["-sel", "time.Sleep=vhook.Sleep"]}]),
+    ], layers={"quick": ["c16-calls", "c16-history"], "thorough": ["c16-calls", "c16-history"]}),
 }
 
 def layer_unit(pid, layer):
